@@ -124,22 +124,36 @@ def run_case(case):
         # values - then the first call again, which must give the first result
         wbad = (np.asarray(width, float) + 1.7).tolist() if np.ndim(width) else width + 1.7
         pbad = (np.asarray(param, float) * 0.5).tolist() if np.ndim(param) else param * 0.5
-        for bad in (
-                lambda: sp.interpolate(x, coord, kernel="linear", width=wbad, param=pbad),
-                lambda: sp.gridding(y, coord, batch + grid, kernel="linear", width=wbad,
-                                    param=pbad),
-                lambda: sp.interpolate(x, np.concatenate([coord] * 3, axis=-1)[..., :4],
-                                       kernel=kernel, width=wbad, param=pbad),
-                lambda: sp.gridding(y[..., :-1] if y.shape[-1] > 1 else y[..., None], coord,
-                                    batch + grid, kernel=kernel, width=wbad, param=pbad)):
-            try:
-                bad()
-            except Exception:
-                pass
+        bad_i = (lambda: sp.interpolate(x, coord, kernel="linear", width=wbad, param=pbad),
+                 lambda: sp.interpolate(x, np.concatenate([coord] * 3, axis=-1)[..., :4],
+                                        kernel=kernel, width=wbad, param=pbad))
+        bad_g = (lambda: sp.gridding(y, coord, batch + grid, kernel="linear", width=wbad,
+                                     param=pbad),
+                 lambda: sp.gridding(y[..., :-1] if y.shape[-1] > 1 else y[..., None], coord,
+                                     batch + grid, kernel=kernel, width=wbad, param=pbad))
         try:
-            again_i = sp.interpolate(x, coord, kernel=kernel, width=width, param=param)
-            again_g = sp.gridding(y, coord, batch + grid, kernel=kernel, width=width,
-                                  param=param)
+            # per function: valid call, rejected call(s) of the same function, valid call again
+            # (nothing else in between), for each of the rejected variants
+            again_i, again_g = got_i, got_g
+            for bad in bad_i:
+                sp.interpolate(x, coord, kernel=kernel, width=width, param=param)
+                try:
+                    bad()
+                except Exception:
+                    pass
+                r_ = sp.interpolate(x, coord, kernel=kernel, width=width, param=param)
+                if not np.array_equal(r_, got_i, equal_nan=True):
+                    again_i = r_
+            for bad in bad_g:
+                sp.gridding(y, coord, batch + grid, kernel=kernel, width=width, param=param)
+                try:
+                    bad()
+                except Exception:
+                    pass
+                r_ = sp.gridding(y, coord, batch + grid, kernel=kernel, width=width,
+                                 param=param)
+                if not np.array_equal(r_, got_g, equal_nan=True):
+                    again_g = r_
         except Exception as e:
             return violated(sig, "a valid call raised %s after rejected calls: %s" % (
                 type(e).__name__, str(e)[:150]), wit, mech="history-after-failure")
